@@ -170,8 +170,188 @@ theorem step_everFailed {cfg : Cfg} {s : St} {d : Disk} {a : Act} (hff : a.write
         | (simp only [Option.some.injEq, Prod.mk.injEq] at hs; obtain ⟨rfl, _⟩ := hs; exact hef)
         | cases hs
 
+
+
+theorem failTo_limbo_none {s : St} (j : Job) (pc : JPc) (h : s.limbo = none) : (failTo s j pc).limbo = none := by
+  unfold failTo giveUp; split <;> first | rfl | exact h
+
+theorem finishJob_limbo (s : St) (j : Job) : (finishJob s j).limbo = s.limbo := by
+  unfold finishJob
+  split <;> try rfl
+  split <;> rfl
+
+/-- a job step outside the three shapes `noD10`/`noD26` exclude never puts the storage ahead of the session -/
+theorem stepJob_limbo_none {cfg : Cfg} {s : St} {d : Disk} {j : Job} {rot : Bool} {o : Outcome}
+    (hj : s.job = some j) (hl : s.limbo = none)
+    (h10 : (Act.job rot o).noD10 s = true) (h26 : (Act.job rot o).noD26 s = true)
+    {s' : St} {d' : Disk} (hs : stepJob cfg s d j rot o = some (s', d')) : s'.limbo = none := by
+  simp only [Act.noD10, Act.noD26, hj] at h10 h26
+  unfold stepJob at hs
+  simp only at hs
+  repeat' split at hs
+  all_goals first
+    | (simp only [Option.some.injEq, Prod.mk.injEq] at hs
+       obtain ⟨rfl, _⟩ := hs
+       first
+         | exact hl
+         | rfl
+         | (rw [finishJob_limbo]; exact hl)
+         | (apply failTo_limbo_none; first | exact hl | rfl | (simp_all; done))
+         | (simp only [giveUp, install]; exact hl)
+         | (simp_all; done)
+         | (exfalso; cases o <;> simp_all [Outcome.failed]))
+    | cases hs
+theorem step_limbo_none {cfg : Cfg} {s : St} {d : Disk} {a : Act} (hok : a.faultsOK (s, d) = true)
+    (hl : s.limbo = none) {s' : St} {d' : Disk} (hs : step cfg s d a = some (s', d')) : s'.limbo = none := by
+  have h10 : a.noD10 s = true := by
+    simp only [Act.faultsOK, Bool.and_eq_true] at hok; exact hok.1
+  have h26 : a.noD26 s = true := by
+    simp only [Act.faultsOK, Bool.and_eq_true] at hok; exact hok.2
+  cases a with
+  | job rot o =>
+    simp only [step] at hs
+    cases hj : s.job with
+    | none => rw [hj] at hs; cases hs
+    | some j =>
+      rw [hj] at hs
+      exact stepJob_limbo_none hj hl h10 h26 hs
+  | crash ch =>
+    simp only [step, Option.some.injEq, Prod.mk.injEq] at hs
+    obtain ⟨rfl, rfl⟩ := hs
+    rfl
+  | exit =>
+    simp only [step, Option.some.injEq, Prod.mk.injEq] at hs
+    obtain ⟨rfl, rfl⟩ := hs
+    rfl
+  | trDiscard =>
+    simp only [step] at hs
+    split at hs
+    · simp only [Option.map_eq_some_iff, Prod.mk.injEq] at hs
+      obtain ⟨s1, hs1, rfl, rfl⟩ := hs
+      unfold stepTr at hs1
+      repeat' split at hs1
+      all_goals first
+        | (simp only [Option.some.injEq] at hs1; subst hs1; exact hl)
+        | cases hs1
+    · unfold trDiscardJob at hs
+      repeat' split at hs
+      all_goals first
+        | (simp only [Option.some.injEq, Prod.mk.injEq] at hs; obtain ⟨rfl, _⟩ := hs; exact hl)
+        | cases hs
+  | wAppend recs sync o =>
+    simp only [step, stepWriter] at hs
+    repeat' split at hs
+    all_goals first
+      | (simp only [Option.some.injEq, Prod.mk.injEq] at hs; obtain ⟨rfl, _⟩ := hs; exact hl)
+      | cases hs
+  | wSync o =>
+    simp only [step, stepWriter] at hs
+    repeat' split at hs
+    all_goals first
+      | (simp only [Option.some.injEq, Prod.mk.injEq] at hs; obtain ⟨rfl, _⟩ := hs; exact hl)
+      | cases hs
+  | rotate o =>
+    simp only [step, stepWriter] at hs
+    repeat' split at hs
+    all_goals first
+      | (simp only [Option.some.injEq, Prod.mk.injEq] at hs; obtain ⟨rfl, _⟩ := hs; exact hl)
+      | cases hs
+  | wApply =>
+    simp only [step, stepWriter] at hs
+    repeat' split at hs
+    all_goals first
+      | (simp only [Option.some.injEq, Prod.mk.injEq] at hs; obtain ⟨rfl, _⟩ := hs; exact hl)
+      | cases hs
+  | wPublish =>
+    simp only [step, stepWriter] at hs
+    repeat' split at hs
+    all_goals first
+      | (simp only [Option.some.injEq, Prod.mk.injEq] at hs; obtain ⟨rfl, _⟩ := hs; exact hl)
+      | cases hs
+  | wAck =>
+    simp only [step, stepWriter] at hs
+    repeat' split at hs
+    all_goals first
+      | (simp only [Option.some.injEq, Prod.mk.injEq] at hs; obtain ⟨rfl, _⟩ := hs; exact hl)
+      | cases hs
+  | flushStart =>
+    simp only [step, Option.map_eq_some_iff, Prod.mk.injEq] at hs
+    obtain ⟨s1, hs1, rfl, rfl⟩ := hs
+    unfold flushStart at hs1
+    repeat' split at hs1
+    all_goals first
+      | (simp only [Option.some.injEq] at hs1; subst hs1; exact hl)
+      | cases hs1
+  | recOpen =>
+    simp only [step, Option.map_eq_some_iff, Prod.mk.injEq] at hs
+    obtain ⟨s1, hs1, rfl, rfl⟩ := hs
+    unfold recOpen at hs1
+    repeat' split at hs1
+    all_goals first
+      | (simp only [Option.some.injEq] at hs1; subst hs1; first | exact hl | rfl)
+      | cases hs1
+  | recStep =>
+    simp only [step, Option.map_eq_some_iff, Prod.mk.injEq] at hs
+    obtain ⟨s1, hs1, rfl, rfl⟩ := hs
+    unfold recStep at hs1
+    repeat' split at hs1
+    all_goals first
+      | (simp only [Option.some.injEq] at hs1; subst hs1; exact hl)
+      | cases hs1
+  | compactStart inputs =>
+    simp only [step, Option.map_eq_some_iff, Prod.mk.injEq] at hs
+    obtain ⟨s1, hs1, rfl, rfl⟩ := hs
+    unfold compactStart at hs1
+    repeat' split at hs1
+    all_goals first
+      | (simp only [Option.some.injEq] at hs1; subst hs1; exact hl)
+      | cases hs1
+  | trBegin =>
+    simp only [step, Option.map_eq_some_iff, Prod.mk.injEq] at hs
+    obtain ⟨s1, hs1, rfl, rfl⟩ := hs
+    unfold stepTr at hs1
+    repeat' split at hs1
+    all_goals first
+      | (simp only [Option.some.injEq] at hs1; subst hs1; exact hl)
+      | cases hs1
+  | trPut r =>
+    simp only [step, Option.map_eq_some_iff, Prod.mk.injEq] at hs
+    obtain ⟨s1, hs1, rfl, rfl⟩ := hs
+    unfold stepTr at hs1
+    repeat' split at hs1
+    all_goals first
+      | (simp only [Option.some.injEq] at hs1; subst hs1; exact hl)
+      | cases hs1
+  | trCommit =>
+    simp only [step, Option.map_eq_some_iff, Prod.mk.injEq] at hs
+    obtain ⟨s1, hs1, rfl, rfl⟩ := hs
+    unfold stepTr at hs1
+    repeat' split at hs1
+    all_goals first
+      | (simp only [Option.some.injEq] at hs1; subst hs1; exact hl)
+      | cases hs1
+
+theorem faultsOK_of_faultFree {a : Act} (hff : a.faultFree = true) (sd : St × Disk) : a.faultsOK sd = true := by
+  cases a <;> simp_all [Act.faultFree, Act.faultsOK, Act.noD10, Act.noD26] <;> (repeat' split) <;> simp
+
+/-- the standing condition of the state-machine proof: while the storage may be one edit ahead of the session
+    (`St.limbo`), `Discard` must leave the tables of a failed commit alone (commit 5cf4e90) -/
+def LimboSafe (cfg : Cfg) (s : St) : Prop := s.limbo = none ∨ cfg.discardKeepsTablesWhenUncertain = true
+
+/-- the invariant together with its standing condition -/
+def InvL (cfg : Cfg) (s : St) (d : Disk) : Prop := Inv cfg s d ∧ LimboSafe cfg s
+
+theorem limboSafe_step {cfg : Cfg} {s : St} {d : Disk} {a : Act} (hl : LimboSafe cfg s)
+    (ha : a.faultsOK (s, d) = true ∨ cfg.discardKeepsTablesWhenUncertain = true) {s' : St} {d' : Disk}
+    (hs : step cfg s d a = some (s', d')) : LimboSafe cfg s' := by
+  rcases ha with ha | ha
+  · rcases hl with hl | hl
+    · exact Or.inl (step_limbo_none ha hl hs)
+    · exact Or.inr hl
+  · exact Or.inr ha
+
 theorem inv_step {cfg : Cfg} (hg : cfg.Good) {s : St} {d : Disk} (h : Inv cfg s d) {a : Act}
-    (hff : a.faultFree = true)
+    (hff : a.faultFree = true) (hlim : LimboSafe cfg s)
     {s' : St} {d' : Disk} (hs : step cfg s d a = some (s', d')) : Inv cfg s' d' := by
   cases a with
   | wAppend recs sync o =>
@@ -240,14 +420,14 @@ theorem inv_step {cfg : Cfg} (hg : cfg.Good) {s : St} {d : Disk} (h : Inv cfg s 
     · simp only [Option.map_eq_some_iff, Prod.mk.injEq] at hs
       obtain ⟨s1, hs1, rfl, rfl⟩ := hs
       exact inv_stepTr h hs1
-    · exact inv_trDiscardJob h hs
+    · exact inv_trDiscardJob h hlim hs
 
 theorem inv_run {cfg : Cfg} (hg : cfg.Good) {sd sd' : St × Disk} (h : Inv cfg sd.1 sd.2)
     (hef : sd.1.everFailed = false) (as : List Act)
-    (hff : ∀ a ∈ as, a.faultFree = true) (hr : run cfg sd as = some sd') :
-    Inv cfg sd'.1 sd'.2 ∧ sd'.1.everFailed = false := by
+    (hff : ∀ a ∈ as, a.faultFree = true) (hr : run cfg sd as = some sd') (hl : sd.1.limbo = none := by rfl) :
+    Inv cfg sd'.1 sd'.2 ∧ sd'.1.everFailed = false ∧ sd'.1.limbo = none := by
   induction as generalizing sd with
-  | nil => simp only [run, Option.some.injEq] at hr; subst hr; exact ⟨h, hef⟩
+  | nil => simp only [run, Option.some.injEq] at hr; subst hr; exact ⟨h, hef, hl⟩
   | cons a as ih =>
     obtain ⟨s, d⟩ := sd
     simp only [run] at hr
@@ -256,11 +436,22 @@ theorem inv_run {cfg : Cfg} (hg : cfg.Good) {sd sd' : St × Disk} (h : Inv cfg s
     | some sd1 =>
       rw [hs] at hr
       obtain ⟨s1, d1⟩ := sd1
-      exact ih (sd := (s1, d1)) (inv_step hg h (hff a List.mem_cons_self) hs)
+      exact ih (sd := (s1, d1)) (inv_step hg h (hff a List.mem_cons_self) (Or.inl hl) hs)
         (step_everFailed (by
           have := hff a List.mem_cons_self
           cases a <;> simp_all [Act.faultFree, Act.writerFaultFree]) hef hs)
         (fun b hb => hff b (List.mem_cons_of_mem _ hb)) hr
+        (step_limbo_none (faultsOK_of_faultFree (hff a List.mem_cons_self) _) hl hs)
+
+/-- in a fault-free run the storage is never ahead of the session -/
+theorem limbo_none_reachable {cfg : Cfg} (hg : cfg.Good) {sd : St × Disk} (h : ReachableFF cfg sd) :
+    sd.1.limbo = none := by
+  obtain ⟨as, hff, hr⟩ := h
+  exact (inv_run hg (inv_init cfg) rfl as hff hr).2.2
+
+theorem invL_step {cfg : Cfg} (hg : cfg.Good) {s : St} {d : Disk} (h : InvL cfg s d) {a : Act}
+    (hff : a.faultFree = true) {s' : St} {d' : Disk} (hs : step cfg s d a = some (s', d')) : InvL cfg s' d' :=
+  ⟨inv_step hg h.1 hff h.2 hs, limboSafe_step h.2 (Or.inl (faultsOK_of_faultFree hff _)) hs⟩
 
 theorem inv_reachable {cfg : Cfg} (hg : cfg.Good) {sd : St × Disk} (h : ReachableFF cfg sd) : Inv cfg sd.1 sd.2 := by
   obtain ⟨as, hff, hr⟩ := h
